@@ -49,7 +49,7 @@ def to_rec(run):
     h = run.history
     hh = dict(h)
     hh["sample_history"] = [
-        {"beta": s["beta"], "x": s["x"].tolist(), "L": s["L"].tolist(), "P": s["P"].tolist(), "Q": s["Q"].tolist()}
+        {"beta": s["beta"], "x": s["x"].tolist(), "L": s["L"].tolist(), "P": s["P"].tolist(), "Q": s["Q"].tolist(), "dtype": s.get("dtype")}
         for s in h["sample_history"]
     ]
     return {"history": hh, "exception": run.exception, "cfg": run.cfg}
